@@ -611,6 +611,9 @@ func run(c *hl.Ctx) error {
 	}
 	runJobs(c, jobs)
 	total := c.Pick(200, 15000)
+	if c.Search && c.Tier != "thorough" {
+		total = 800
+	}
 	feats := svgr.Features{}
 	for done := 0; done < total; {
 		jobs = jobs[:0]
